@@ -619,6 +619,11 @@ where
                                 cursor = re_chars.next().map(|(step2_pos, step2)| {
                                     (step1_pos, &re_str[step2_pos..], step2_pos, step2)
                                 });
+                                if cursor.is_none() {
+                                    // A lone backslash ends the string: keep it, and the text since the
+                                    // last rewrite, for the regex compiler to report.
+                                    unescaped.push_str(&re_str[last_pos..]);
+                                }
                                 continue 'outer;
                             }
                         } else {
@@ -1860,6 +1865,18 @@ b "A"
             LexErrorKind::InvalidName,
             3,
             18,
+        );
+    }
+
+    #[test]
+    fn test_trailing_backslash_after_unescape() {
+        // The text before a lone trailing backslash must not be dropped: `\!abc\` used to become `!`.
+        let src = "%%\n\\!abc\\ 'X'\n";
+        LRNonStreamingLexerDef::<DefaultLexerTypes<u8>>::from_str(src).expect_error_at_line_col(
+            src,
+            LexErrorKind::RegexError(regex::Error::Syntax(String::new())),
+            2,
+            1,
         );
     }
 
